@@ -587,9 +587,9 @@ impl Parser for ParameterDeclaration {
         }
 
         match this {
-            Some(Self::Valid { .. }) => {
-                affected(this, alt((|input| parse_valid(this, input), parse_error)))(input)
-            }
+            // If the old parameter cannot be rebuilt, this is reported to the caller,
+            // which parses the parameter from scratch.
+            Some(Self::Valid { .. }) => affected(this, |input| parse_valid(this, input))(input),
             _ => alt((|input| parse_valid(None, input), parse_error))(input),
         }
     }
@@ -637,10 +637,11 @@ impl Parser for Argument {
         }
 
         let (input, expr) = match this {
-            Some(Self::Valid(expr)) => affected(
-                Some(expr),
-                alt((|input| parse_valid(Some(expr), input), parse_error)),
-            )(input)?,
+            // If the old argument cannot be rebuilt, this is reported to the caller,
+            // which parses the argument from scratch.
+            Some(Self::Valid(expr)) => {
+                affected(Some(expr), |input| parse_valid(Some(expr), input))(input)?
+            }
             _ => alt((|input| parse_valid(None, input), parse_error))(input)?,
         };
         Ok((input, expr.into()))
